@@ -63,12 +63,20 @@ def cases(tier, rng):
             k += 1
         # many simultaneous misbehaving clients (k is not bounded by the property: any fixed cap on pending handshakes is a violation)
         for transport in (("tcp4", "ipc") if tier == "thorough" else (rng.choice(["tcp4", "ipc"]),)):
-            for m in ((17, 33, 64, 130) if tier == "thorough" else (20, 48)):
+            for m in ((17, 33, 64, 130) if tier == "thorough" else (20, 70)):
                 ops = ["bind " + transport, "conn 0"]
                 for _ in range(m):
                     ops.append("staller 0 off=%d mode=%s" % (rng.randint(0, n - 1), rng.choice(["stop", "stop", "stop", "garbage", "close"])))
                 ops += ["conn 0", "xchg 0", "xchg %d" % (m + 1), "monitor"]
                 out.append("g%d rt %s mon / %s" % (k, t, " / ".join(ops)))
+                k += 1
+    # a long history of FAILED handshakes on one endpoint (more than a hundred, one after the other) leaves no trace: the next
+    # well-behaved client is admitted and served
+    for t in ("PULL", "REP", "ROUTER"):
+        for tr in ("tcp4", "ipc"):
+            for mode, off in (("close", 0), ("close", 64), ("garbage", 0), ("garbage", 20)):
+                ops = ["bind " + tr, "conn 0"] + ["staller 0 off=%d mode=%s" % (off, mode)] * 110 + ["conn 0", "xchg 0", "xchg 111", "monitor"]
+                out.append("f%d rt %s mon / %s" % (k, t, " / ".join(ops)))
                 k += 1
     # a client stalled in its handshake does not keep the OWNER from going on: unbind of that endpoint and close of the
     # socket return, and the well-behaved peer on the other endpoint is served in between
